@@ -803,8 +803,9 @@ func runSdxDeletes(t fataler, hist []rec, order []uint64, delOffUnits []int64, f
 			probe = append(allKeys(live), k)
 		}
 		checkSdxGets(t, nm, live, deleted, probe, ctx)
-		// the .idx is the deletion journal of a plain volume: the original entries followed by one tombstone per delete
-		if got := mustRead(t, base+".idx"); !bytes.Equal(got, wantIdx) {
+		// the .idx is the deletion journal of a plain volume: the original entries followed by one tombstone per
+		// delete (a repeated tombstone for an already deleted needle is tolerated, as for the .ecj)
+		if got := mustRead(t, base+".idx"); !bytes.Equal(dedupTail(got, len(idx0)), wantIdx) {
 			t.Fatalf("%s: after Delete(%x) the .idx holds %s, want the %d original entries followed by the tombstones %s", ctx, k, briefIdx(got), len(hist), briefIdx(wantIdx[len(idx0):]))
 		}
 	}
@@ -830,6 +831,27 @@ func runSdxDeletes(t fataler, hist []rec, order []uint64, delOffUnits []int64, f
 	}
 	checkSdxGets(t, nm3, wantLive, map[uint64]bool{}, append(allKeys(live), order...), ctx+" (regenerated)")
 	nm3.Close()
+}
+
+// dedupTail drops, from the entries after the first n bytes, repeated tombstones of a needle already tombstoned in the tail.
+func dedupTail(b []byte, n int) []byte {
+	es := types.NeedleMapEntrySize
+	if len(b) < n || (len(b)-n)%es != 0 {
+		return b
+	}
+	out := append([]byte{}, b[:n]...)
+	seen := map[string]bool{}
+	for i := n; i+es <= len(b); i += es {
+		e := string(b[i : i+es])
+		if _, _, sz := idxEntry(b[i : i+es]); sz == -1 {
+			e = e[:8] // a tombstone is identified by its needle id
+		}
+		if !seen[e] {
+			seen[e] = true
+			out = append(out, b[i:i+es]...)
+		}
+	}
+	return out
 }
 
 func briefIdx(b []byte) string {
